@@ -1258,25 +1258,7 @@ class C01(Check):
         return fails
 
     def classify(self, case, failure):
-        """F51: Indexed MRS, reading back raises KeyError and some EP (n variable arguments) has a predicate with a
-        synopsis that lists CARG within its first n roles (Synopsis.subsumes asks the variable hierarchy about
-        'string').  Only the KeyError of reading back is attributed to it."""
-        if case.get("kind") != "rt" or case.get("codec") != "indexed":
-            return None
-        if "raises" not in str(failure.get("clause")) or "KeyError" not in str(failure.get("detail")):
-            return None
-        groups = [(case.get("semi") or IX_PREDS, case["items"])]
-        if case.get("pre"):
-            groups.append((case["pre"]["semi"], case["pre"]["items"]))
-        for preds, items in groups:
-            for mj in items:
-                for e in mj["rels"]:
-                    n = sum(1 for k_, _ in e["args"] if uncps(k_) != "CARG")
-                    for syn in preds.get(uncps(e["pred"]), []):
-                        names = [r[0] for r in syn]
-                        if "CARG" in names and names.index("CARG") < n:
-                            return "F51"
-        return None
+        return None     # no open finding for C01 (F14, F15, F33, F50, F53 are repaired; witnesses in corpus/C01)
 
     # ---------------------------------------------------------------- evidence
     def nontrivial_key(self, case, res):
